@@ -393,3 +393,20 @@ def inject(schema, document):
                           sel=defs[a].sel + (Field("__typename", None, (), (Directive("dq", (Arg("n", Var("zzOther")),)),)),))
         defs[b] = replace(defs[b], sel=defs[b].sel + (Field("__typename", "t2", (), (Directive("dq", (Arg("n", Var("zzOther")),)),)),))
         yield "5.8.3", "defined-by-other-operation-only", replace(D, defs=tuple(defs))
+        # the variable is used inside a fragment shared by both operations; only one of them defines it
+        for definer, other, tag in ((a, b, "first-defines"), (b, a, "second-defines")):
+            defs = list(D.defs)
+            fn = rewrite.fresh(D, "SV")
+            rt = schema.root(defs[a].kind)
+            if defs[a].kind != defs[b].kind or rt is None:
+                continue
+            defs[definer] = replace(defs[definer], vars=defs[definer].vars + (VarDef("zzShared", "Int"),), sel=defs[definer].sel + (Spread(fn),))
+            defs[other] = replace(defs[other], sel=defs[other].sel + (Spread(fn),))
+            frag = Fragment(fn, rt, (), (Field("__typename", "tsv", (), (Directive("dq", (Arg("n", Var("zzShared")),)),)),))
+            yield "5.8.3", "shared-fragment|" + tag, replace(D, defs=tuple(defs) + (frag,))
+            inner = rewrite.fresh(D, "SW")
+            frag2 = Fragment(fn, rt, (), (Spread(inner),))
+            frag3 = Fragment(inner, rt, (), (Field("__typename", "tsv", (), (Directive("skip", (Arg("if", Var("zzSharedB")),)),)),))
+            defs2 = list(defs)
+            defs2[definer] = replace(defs2[definer], vars=defs2[definer].vars[:-1] + (VarDef("zzSharedB", "Boolean!"),))
+            yield "5.8.3", "shared-nested-fragment|" + tag, replace(D, defs=tuple(defs2) + (frag2, frag3))
